@@ -48,6 +48,10 @@ ISOWEEK_OF = M.uf('greg_isoweek', ['int'], 'int', lambda o: _dt.date.fromordinal
 ISOYEAR_OF = M.uf('greg_isoyear', ['int'], 'int', lambda o: _dt.date.fromordinal(o).isocalendar()[0] if _ok_ord(o) else 0)
 
 
+import collections as _collections
+_IsoCalendarDate = _collections.namedtuple('IsoCalendarDate', 'year week weekday')
+
+
 def _simp(x):
     if is_sym(x):
         t = z3.simplify(x.t)
@@ -199,7 +203,8 @@ class SymDateTime(SymObject):
         return arith(ast.Mod, self.ord + 6, 7) + 1
 
     def m_isocalendar(self, it):
-        return (ISOYEAR_OF(self.ord), ISOWEEK_OF(self.ord), self.m_isoweekday(it))
+        # (a named tuple as in CPython >= 3.9: .year / .week / .weekday as well as [0] / [1] / [2])
+        return _IsoCalendarDate(ISOYEAR_OF(self.ord), ISOWEEK_OF(self.ord), self.m_isoweekday(it))
 
     def m_toordinal(self, it):
         return self.ord
